@@ -8,9 +8,11 @@ import (
 
 	"github.com/cosmos/cosmos-sdk/crypto/keys/ed25519"
 	sdk "github.com/cosmos/cosmos-sdk/types"
+	banktypes "github.com/cosmos/cosmos-sdk/x/bank/types"
 	stakingtypes "github.com/cosmos/cosmos-sdk/x/staking/types"
 
 	"github.com/osmosis-labs/osmosis/osmomath"
+	gammtypes "github.com/osmosis-labs/osmosis/v31/x/gamm/types"
 	pmtypes "github.com/osmosis-labs/osmosis/v31/x/poolmanager/types"
 	valsettypes "github.com/osmosis-labs/osmosis/v31/x/valset-pref/types"
 )
@@ -220,6 +222,46 @@ func TestRegress_C19_scenario_valset_without_preference(t *testing.T) {
 		run(1, valsettypes.NewMsgDelegateToValidatorSet(Actor(1), coin(Bond, 7_777_777+int64(i))))
 	}
 	if out := replicate(p, want, 4); out.msg != "" {
+		t.Fatalf("%s", out.msg)
+	}
+}
+
+// TestRegress_C19_scenario_taker_fee_share_after_restart: governance-set taker-fee share agreements exist since genesis;
+// every replica executes the same swaps of a denom with an agreement, sent both as gamm and as poolmanager messages, and the
+// noisy replicas rebuild the application from its database before them. Every replica must skim the same amounts
+// (the agreements live in an in-memory cache of the pool manager that a restarted node refills in its first BeginBlock).
+func TestRegress_C19_scenario_taker_fee_share_after_restart(t *testing.T) {
+	cfg := defaultCfg()
+	cfg.TakerFee = "0.01"
+	cfg.Alloyed = true
+	leader := NewNode(Bootstrap(cfg))
+	defer leader.Close()
+	p := Plan{Cfg: cfg, Restarts: []int{1}}
+	var want []BlockResult
+	run := func(a int, msg sdk.Msg) {
+		tx, err := leader.SignTx(a, 0, 6_000_000, stdFee(), msg)
+		if err != nil {
+			t.Fatal(err)
+		}
+		blk := Block{Dt: 5 * time.Second, Txs: [][]byte{tx}, Kinds: []string{fmt.Sprintf("a%d:%T", a, msg)}, Votes: leader.Votes()}
+		br, err := leader.RunBlock(blk.Dt, blk.Txs, blk.Votes)
+		if err != nil {
+			t.Fatal(err)
+		}
+		if r := DecodeTxResult(br.Tx[0]); r.Code != 0 {
+			t.Fatalf("harness: %T rejected: %s", msg, r.Log)
+		}
+		p.Blocks = append(p.Blocks, blk)
+		want = append(want, br)
+	}
+	run(0, &banktypes.MsgSend{FromAddress: Actor(0).String(), ToAddress: Actor(1).String(), Amount: sdk.NewCoins(coin("uion", 1000))})
+	run(1, &gammtypes.MsgSwapExactAmountIn{Sender: Actor(1).String(), Routes: []pmtypes.SwapAmountInRoute{{PoolId: 1, TokenOutDenom: Bond}}, TokenIn: coin("uion", 50_000_000), TokenOutMinAmount: osmomath.OneInt()})
+	run(2, &pmtypes.MsgSwapExactAmountIn{Sender: Actor(2).String(), Routes: []pmtypes.SwapAmountInRoute{{PoolId: 1, TokenOutDenom: Bond}}, TokenIn: coin("uion", 70_000_000), TokenOutMinAmount: osmomath.OneInt()})
+	acc, err := leader.App.PoolManagerKeeper.GetAllTakerFeeShareAccumulators(leader.ReadCtx())
+	if err != nil || len(acc) == 0 {
+		t.Fatalf("harness: the leader skimmed nothing (%v, %v)", acc, err)
+	}
+	if out := replicate(p, want, 2); out.msg != "" {
 		t.Fatalf("%s", out.msg)
 	}
 }
